@@ -28,6 +28,9 @@ static void hdr(const char *op, const char *alg, const unsigned char *k, size_t 
     memset(c, 0xaa, ml + 64); int ret = P##_encrypt(c, &l, m, ml, al ? ad : NULL, al, NULL, n, k); res_add(&r, c, c + ml, ret | (l != ml + TL)); \
     memset(c2, 0xaa, ml + 64); ret = P##_encrypt_detached(c2, tag, &tl, m, ml, al ? ad : NULL, al, NULL, n, k); res_add(&r, c2, tag, ret | (tl != TL)); \
     memcpy(c2, m, ml); ret = P##_encrypt(c2, &l, c2, ml, al ? ad : NULL, al, NULL, n, k); res_add(&r, c2, c2 + ml, ret);           /* in place */ \
+    memset(c2, 0xaa, ml + 64); ret = P##_encrypt(c2, NULL, m, ml, al ? ad : NULL, al, NULL, n, k); res_add(&r, c2, c2 + ml, ret);   /* forms that do not ask for the lengths */ \
+    memset(c2, 0xaa, ml + 64); memset(tag, 0, sizeof tag); ret = P##_encrypt_detached(c2, tag, NULL, m, ml, al ? ad : NULL, al, NULL, n, k); res_add(&r, c2, tag, ret); \
+    memset(out, 0x77, ml + 1); ret = P##_decrypt(out, NULL, NULL, c, ml + TL, al ? ad : NULL, al, n, k); res_dec(&r, ret, out, m, ml, ml); \
     l = 999; ret = P##_decrypt(out, &l, NULL, c, ml + TL, al ? ad : NULL, al, n, k); res_dec(&r, ret, out, m, ml, l); \
     ret = P##_decrypt_detached(out, NULL, c, ml, c + ml, al ? ad : NULL, al, n, k); res_dec(&r, ret, out, m, ml, ml); \
     ret = P##_decrypt_detached(NULL, NULL, c, ml, c + ml, al ? ad : NULL, al, n, k); res_dec(&r, ret, m, m, ml, ml);                   /* verify only */ \
